@@ -30,7 +30,7 @@ from ..engine import (
     stmt_of,
     walk_no_nested,
 )
-from ..normal import nfunc
+from ..normal import nfunc, normalize
 from ..report import Report
 from . import _orch
 
@@ -67,6 +67,67 @@ def alpha_normal_form(fn: ast.FunctionDef, type_aliases: Dict[str, str]) -> str:
     T().visit(fn)
     body = [st for st in fn.body if not (isinstance(st, ast.Expr) and isinstance(st.value, ast.Constant))]
     return "\n".join(ast.dump(st, include_attributes=False) for st in body)
+
+
+def returned_value_form(fn: ast.AST, type_aliases: Dict[str, str]) -> Optional[str]:
+    """Position-free dump of the one expression a side-effect-free function returns, or None when *fn* is not of
+    that shape.  Early-return chains / if-else / conditional expressions become one nested conditional expression,
+    negated tests are un-negated (branches swapped), locals assigned once and read once are substituted, the
+    function's own name, its parameters and comprehension variables are renamed canonically.  Two functions with
+    the same form compute the same value for every argument (spelling differences only)."""
+    fn = ast.parse(ast.unparse(fn)).body[0]  # detached copy
+    stores: Dict[str, int] = {}
+    loads: Dict[str, int] = {}
+    for n in ast.walk(fn):
+        if isinstance(n, ast.Name):
+            d = stores if isinstance(n.ctx, ast.Store) else loads
+            d[n.id] = d.get(n.id, 0) + 1
+
+    def subst(e: ast.AST, name: str, v: ast.AST) -> ast.AST:
+        class S(ast.NodeTransformer):
+            def visit_Name(self, n):
+                return v if isinstance(n.ctx, ast.Load) and n.id == name else n
+        return S().visit(e)
+
+    def value(stmts: List[ast.stmt]) -> Optional[ast.AST]:
+        if not stmts:
+            return ast.Constant(value=None)
+        st, rest = stmts[0], list(stmts[1:])
+        if isinstance(st, ast.Expr) and isinstance(st.value, ast.Constant):
+            return value(rest)
+        if isinstance(st, ast.Return):
+            return st.value if st.value is not None else ast.Constant(value=None)
+        if isinstance(st, ast.If):
+            t, e = value(list(st.body) + rest), value(list(st.orelse) + rest)
+            return ast.IfExp(test=st.test, body=t, orelse=e) if t is not None and e is not None else None
+        if isinstance(st, (ast.Assign, ast.AnnAssign)) and st.value is not None:
+            tg = st.targets if isinstance(st, ast.Assign) else [st.target]
+            if len(tg) == 1 and isinstance(tg[0], ast.Name) and stores.get(tg[0].id) == 1 and loads.get(tg[0].id) == 1:
+                r = value(rest)
+                return subst(r, tg[0].id, st.value) if r is not None else None
+        return None
+
+    e = value(list(fn.body))
+    if e is None:
+        return None
+
+    class Unnegate(ast.NodeTransformer):
+        def visit_IfExp(self, n):
+            self.generic_visit(n)
+            while isinstance(n.test, ast.UnaryOp) and isinstance(n.test.op, ast.Not):
+                n = ast.IfExp(test=n.test.operand, body=n.orelse, orelse=n.body)
+            return n
+    e = Unnegate().visit(e)
+    ren = {fn.name: "F"}
+    for i, a in enumerate(fn.args.args):
+        ren[a.arg] = f"p{i}"
+    for n in ast.walk(e):
+        if isinstance(n, ast.Name) and isinstance(n.ctx, ast.Store) and n.id not in ren:
+            ren[n.id] = f"v{len(ren)}"
+    for n in ast.walk(e):
+        if isinstance(n, ast.Name):
+            n.id = ren.get(n.id, type_aliases.get(n.id, n.id))
+    return ast.dump(e, include_attributes=False)
 
 
 # ---------------------------------------------------------------------------------------------------------
@@ -200,9 +261,96 @@ def _ctor_of(fn: ast.AST, e: Optional[ast.AST], cls: str) -> bool:
     return bool(vals) and all(isinstance(v, ast.Call) and (call_name(v) or "").split(".")[-1] == cls for v in vals)
 
 
+def _loop_plan(fn: ast.AST, loop: ast.For) -> Optional[Tuple[ast.AST, str, str]]:
+    """(sequence, index local, item local) when *loop* visits every element of a sequence once, in order, with its
+    0-based position: ``for i, v in enumerate(seq)`` or ``for i in range(len(seq)): v = seq[i]``."""
+    it = loop.iter
+    if not (isinstance(it, ast.Call) and len(it.args) == 1 and not it.keywords):
+        return None
+    if call_name(it) == "enumerate":
+        tg = loop.target
+        if isinstance(tg, ast.Tuple) and len(tg.elts) == 2 and all(isinstance(x, ast.Name) for x in tg.elts):
+            return it.args[0], tg.elts[0].id, tg.elts[1].id
+        return None
+    if call_name(it) == "range" and isinstance(loop.target, ast.Name):
+        i = loop.target.id
+        lens = _origins(fn, it.args[0], keep_none=True)
+        if not lens or not all(isinstance(v, ast.Call) and call_name(v) == "len" and len(v.args) == 1 and not v.keywords for v in lens):
+            return None
+        seq = lens[0].args[0]
+        if not all(_same(v.args[0], seq) for v in lens):
+            return None
+        items = [(t.id, n) for n in ast.walk(loop) if isinstance(n, ast.Assign) and len(n.targets) == 1 and isinstance(n.targets[0], ast.Name)
+                 for t in [n.targets[0]] if isinstance(n.value, ast.Subscript) and _same(n.value.value, seq) and isinstance(n.value.slice, ast.Name) and n.value.slice.id == i]
+        rebinds_i = any(isinstance(x, ast.Name) and x.id == i and isinstance(x.ctx, ast.Store) for st in loop.body for x in ast.walk(st))
+        if len(items) == 1 and not rebinds_i and len(_assigned(fn, items[0][0])) == 1 and items[0][1] in loop.body:
+            return seq, i, items[0][0]
+    return None
+
+
 def _params(fn: ast.AST) -> List[str]:
     a = fn.args
     return [x.arg for x in a.posonlyargs + a.args + a.kwonlyargs]
+
+
+class _Case:
+    """One value an expression may have, with the facts known when it has it (see _value_cases)."""
+
+    __slots__ = ("value", "conds", "sites", "hops")
+
+    def __init__(self, value, conds, sites, hops):
+        self.value, self.conds, self.sites, self.hops = value, conds, sites, hops
+
+
+def _value_cases(g: CFG, fn: ast.AST, e: Optional[ast.AST], at: int, params: Set[str], base: Optional[_Case] = None) -> List[_Case]:
+    """Path-sensitive provenance: the expressions *e* (evaluated at CFG node *at*) may evaluate to, each with
+    the facts known on the way - ``conds`` = ((test, truth), ...) from conditional expressions / ``or`` / ``and``
+    that selected the value, ``sites`` = CFG nodes executed to produce it (the use and every reaching definition
+    followed), ``hops`` = (definition node, use node, local) for every local the value travelled in.  Locals are
+    followed through their *reaching* definitions, so a value assigned in one branch of an if/elif/else and
+    returned by a single statement after it keeps the branch it was assigned in."""
+    out: List[_Case] = []
+    busy: Set[Tuple[str, int]] = set()
+
+    def rec(x: Optional[ast.AST], at: int, conds: Tuple, sites: Tuple, hops: Tuple) -> None:
+        if x is None:
+            out.append(_Case(None, conds, sites, hops))
+            return
+        if isinstance(x, ast.IfExp):
+            rec(x.body, at, conds + ((x.test, True),), sites, hops)
+            rec(x.orelse, at, conds + ((x.test, False),), sites, hops)
+            return
+        if isinstance(x, ast.BoolOp) and isinstance(x.op, (ast.Or, ast.And)):
+            # `a or b` is a when a is truthy, else b; `a and b` is a when a is falsy, else b
+            stop = isinstance(x.op, ast.Or)
+            passed: Tuple = ()
+            for v in x.values[:-1]:
+                rec(v, at, conds + passed + ((v, stop),), sites, hops)
+                passed += ((v, not stop),)
+            rec(x.values[-1], at, conds + passed, sites, hops)
+            return
+        if isinstance(x, ast.Call) and call_attr(x) == "cast" and len(x.args) == 2:
+            rec(x.args[1], at, conds, sites, hops)
+            return
+        if isinstance(x, ast.Name) and x.id not in params:
+            defs = reaching_defs(g, x.id, at)
+            if defs and (x.id, at) not in busy:
+                busy.add((x.id, at))
+                for d in defs:
+                    vals = _value_for(d.ast, x.id) if d.kind == "stmt" else []
+                    if not vals:
+                        out.append(_Case(x, conds, sites + (d.id,), hops))  # loop target / augmented / unpacked: opaque
+                    for v in vals:
+                        rec(v, d.id, conds, sites + (d.id,), hops + ((d.id, at, x.id),))
+                busy.discard((x.id, at))
+                return
+        out.append(_Case(x, conds, sites, hops))
+
+    if base is None:
+        rec(e, at, (), (at,), ())
+    else:
+        rec(e, at, base.conds, base.sites, base.hops)
+    return out
 
 
 # ---------------------------------------------------------------------------------------------------------
@@ -234,7 +382,14 @@ def spec_id_rules(repo: Repo, R: Report, run_nf: ast.AST) -> None:
         raise AnalysisError("_rscf_v1: inner normaliser not found")
     nf_a = alpha_normal_form(inner, {"Mapping": "dict"})
     nf_b = alpha_normal_form(twin, {"Mapping": "dict"})
-    R.check(nf_a == nf_b, r_sid, IDENT, "RunSpaceIdentityService._rscf_v1.normalize", "normal form equals inspection.builder._normalize_run_space",
+    same_nf = nf_a == nf_b
+    if not same_nf:
+        # spelled differently: compare the value each one returns, on the normal forms (accumulate-loops as
+        # comprehensions, named sub-expressions substituted, early returns / if-else / negated guards unified)
+        va = returned_value_form(normalize(repo, repo.module(IDENT), inner, loops=True, copyprop="all"), {"Mapping": "dict"})
+        vb = returned_value_form(normalize(repo, repo.module(BUILDER), twin, loops=True, copyprop="all"), {"Mapping": "dict"})
+        same_nf = va is not None and va == vb
+    R.check(same_nf, r_sid, IDENT, "RunSpaceIdentityService._rscf_v1.normalize", "normal form equals inspection.builder._normalize_run_space",
             "the runtime and the inspection normaliser of the run-space block differ: `inspect` prints a different spec id than the trace carries (and/or plans that differ are identified)", inner.lineno)
 
     # json.dumps options
@@ -393,13 +548,23 @@ def launch_bracket_rules(repo: Repo, R: Report, run_nf: ast.AST):
     lit = next((v for v in _origins(run_nf, summ) if isinstance(v, ast.Dict)), None)
     keys = {k.value: v for k, v in zip(lit.keys, lit.values) if isinstance(k, ast.Constant)} if lit is not None else {}
     planned, completed = keys.get("planned_runs"), keys.get("completed_runs")
-    it = loop.iter.args[0] if isinstance(loop.iter, ast.Call) and loop.iter.args else loop.iter
+    plan = _loop_plan(run_nf, loop)
+    it = plan[0] if plan is not None else loop.iter.args[0] if isinstance(loop.iter, ast.Call) and loop.iter.args else loop.iter
     pl_defs = _origins(run_nf, planned)
     ok_planned = bool(pl_defs) and all(isinstance(v, ast.Call) and call_attr(v) == "len" and len(v.args) == 1 and _same(v.args[0], it) for v in pl_defs)
     R.check(ok_planned, r_br, CLI, "_run", "summary.planned_runs = len(runs)", "planned_runs is not the length of the list the loop iterates", ends[0].line if ends else 0)
     cname = completed.id if isinstance(completed, ast.Name) else None
-    incs = [n for n in g.nodes if n.ast is not None and isinstance(n.ast, ast.AugAssign) and dotted_name(n.ast.target) == cname and isinstance(n.ast.op, ast.Add) and isinstance(n.ast.value, ast.Constant) and n.ast.value.value == 1]
-    inits = _assigned(run_nf, cname) if cname else []
+
+    def plus_one(v: ast.AST) -> bool:  # `c + 1` / `1 + c`
+        return isinstance(v, ast.BinOp) and isinstance(v.op, ast.Add) and any(
+            isinstance(a, ast.Name) and a.id == cname and isinstance(b, ast.Constant) and type(b.value) is int and b.value == 1 for a, b in ((v.left, v.right), (v.right, v.left)))
+
+    def increments(a: Optional[ast.AST]) -> bool:  # `c += 1` or `c = c + 1`
+        if isinstance(a, ast.AugAssign):
+            return dotted_name(a.target) == cname and isinstance(a.op, ast.Add) and isinstance(a.value, ast.Constant) and type(a.value.value) is int and a.value.value == 1
+        return isinstance(a, (ast.Assign, ast.AnnAssign)) and bool(_value_for(a, cname)) and all(plus_one(v) for v in _value_for(a, cname))
+    incs = [n for n in g.nodes if cname and n.kind == "stmt" and increments(n.ast)]
+    inits = [v for v in _assigned(run_nf, cname) if not plus_one(v)] if cname else []
     ok_c = cname is not None and len(incs) == 1 and len(inits) == 1 and isinstance(inits[0], ast.Constant) and inits[0].value == 0
     if ok_c:
         inc = incs[0]
@@ -428,7 +593,8 @@ def launch_bracket_rules(repo: Repo, R: Report, run_nf: ast.AST):
                     handler_vars |= {t.id for t in n.targets if isinstance(t, ast.Name)}
     summ_name = dotted_name(summ) if summ is not None else None
     status_sets = [n for n in walk_no_nested(run_nf) if isinstance(n, ast.Assign) and any(isinstance(t, ast.Subscript) and summ_name and dotted_name(t.value) == summ_name and isinstance(t.slice, ast.Constant) and t.slice.value == "status" for t in n.targets)]
-    guarded = [s for s in status_sets if any(isinstance(a, ast.If) and {x.id for x in ast.walk(a.test) if isinstance(x, ast.Name)} & handler_vars for a in ancestors(s))]
+    # ... the test may read the handler variable directly or through locals derived from it (`status = ... if exit_code ...`)
+    guarded = [s for s in status_sets if any(isinstance(a, ast.If) and _slice_names(run_nf, a.test) & handler_vars for a in ancestors(s))]
     R.check(len(guarded) >= 1 and len(outer_try.handlers if outer_try else []) >= 1, r_br, CLI, "_run", "summary.status set when the exit code is not success", "a failed/interrupted launch is not marked in run_space_end", ends[0].line if ends else 0)
     return g, loop, proc[0], (launch, is_launch_attr)
 
@@ -445,7 +611,7 @@ def emitter_state_rules(repo: Repo, R: Report) -> None:
     self_name = init.args.args[0].arg if init.args.args else "self"
     init_params = set(_params(init)) - {self_name}
     inst: Dict[str, List[ast.AST]] = {}
-    for n in walk_no_nested(init):
+    for n in walk_no_nested(nfunc(repo, EMITTER, "RunSpaceTraceEmitter.__init__")):  # normal form: state set up by a private helper of __init__ counts
         tgts = n.targets if isinstance(n, ast.Assign) else [n.target] if isinstance(n, ast.AnnAssign) and n.value is not None else []
         for t in tgts:
             if isinstance(t, ast.Attribute) and isinstance(t.value, ast.Name) and t.value.id == self_name:
@@ -520,7 +686,7 @@ def freshness_rules(repo: Repo, R: Report, run_nf: ast.AST, g: CFG, loop: ast.Fo
     defs_in_loop = [n for n in ast.walk(loop) if isinstance(n, (ast.Assign, ast.AnnAssign)) and n.value is not None and any(isinstance(t, ast.Name) and t.id == ctx_name for t in (n.targets if isinstance(n, ast.Assign) else [n.target]))]
     all_defs = _assigned(run_nf, ctx_name)
     fresh = bool(defs_in_loop) and len(defs_in_loop) == len(all_defs) and all(
-        (isinstance(d.value, ast.Call) and call_attr(d.value) in COPY_CALLS) or isinstance(d.value, (ast.Dict, ast.DictComp)) for d in defs_in_loop)
+        (isinstance(d.value, ast.Call) and call_attr(d.value) in COPY_CALLS) or isinstance(d.value, (ast.Dict, ast.DictComp)) or (isinstance(d.value, ast.BinOp) and isinstance(d.value.op, ast.BitOr)) for d in defs_in_loop)  # `a | b` on mappings builds a new one
     R.check(fresh, r_fr, CLI, "_run", "run context = dict(...) inside the run loop", "the per-run context mapping is created outside the loop (or aliased): keys written by run i are visible to run i+1", loop.lineno)
     # the shared mapping is never mutated inside the loop
     shared: Set[str] = set()
@@ -529,27 +695,42 @@ def freshness_rules(repo: Repo, R: Report, run_nf: ast.AST, g: CFG, loop: ast.Fo
     muts = [m for m in mutation_sites(loop, shared)]
     R.check(not muts, r_fr, CLI, "_run", "shared mapping(s) the run context is copied from are not mutated in the loop", f"`{norm(muts[0][0])[:60]}` mutates state shared by all runs" if muts else "", loop.lineno)
     # run values applied
-    lv = loop.target.elts[1].id if isinstance(loop.target, ast.Tuple) and len(loop.target.elts) == 2 and isinstance(loop.target.elts[1], ast.Name) else None
-    idx = loop.target.elts[0].id if isinstance(loop.target, ast.Tuple) and isinstance(loop.target.elts[0], ast.Name) else None
+    plan = _loop_plan(run_nf, loop)  # every planned run once, in plan order, with its 0-based position
+    lv = plan[2] if plan is not None else None
+    idx = plan[1] if plan is not None else None
     upd = [c for c in calls_in(loop) if call_attr(c) == "update" and dotted_name(c.func.value) == ctx_name and c.args and dotted_name(c.args[0]) == lv]
     spread = [d for d in defs_in_loop if isinstance(d.value, ast.Dict) and any(k is None and dotted_name(v) == lv for k, v in zip(d.value.keys, d.value.values))]
-    R.check(bool(upd or spread) and lv is not None and isinstance(loop.iter, ast.Call) and call_attr(loop.iter) == "enumerate" and len(loop.iter.args) == 1 and not loop.iter.keywords, r_fr, CLI, "_run", "run context updated with the run's values, for index, values in enumerate(runs)", "run i does not receive exactly run i's values (or indices are not 0-based plan order)", loop.lineno)
+    merged = [d for d in defs_in_loop if isinstance(d.value, ast.BinOp) and isinstance(d.value.op, ast.BitOr) and dotted_name(d.value.right) == lv]  # `shared | values`: values win
+    R.check(bool(upd or spread or merged) and lv is not None and plan is not None, r_fr, CLI, "_run", "run context updated with the run's values, for index, values in enumerate(runs)", "run i does not receive exactly run i's values (or indices are not 0-based plan order)", loop.lineno)
     # metadata literal
-    md_assign = [n for n in ast.walk(loop) if isinstance(n, (ast.Assign, ast.AnnAssign)) and isinstance(n.value, ast.Dict) and any(isinstance(k, ast.Constant) and k.value == "run_space_index" for k in n.value.keys)]
-    md = [n.value for n in md_assign] or [d for d in ast.walk(loop) if isinstance(d, ast.Dict) and any(isinstance(k, ast.Constant) and k.value == "run_space_index" for k in d.keys)]
+    def alternatives(e: Optional[ast.AST]) -> List[ast.AST]:  # values a (nested) conditional expression selects from
+        if isinstance(e, ast.IfExp):
+            return alternatives(e.body) + alternatives(e.orelse)
+        return [e] if e is not None else []
+
+    def is_md(d: ast.AST) -> bool:
+        return isinstance(d, ast.Dict) and any(isinstance(k, ast.Constant) and k.value == "run_space_index" for k in d.keys)
+    md_assign = [n for n in ast.walk(loop) if isinstance(n, (ast.Assign, ast.AnnAssign)) and any(is_md(a) for a in alternatives(n.value))]
+    md = [a for n in md_assign for a in alternatives(n.value) if is_md(a)] or [d for d in ast.walk(loop) if is_md(d)]
     if not md:
         raise AnalysisError("_run: run metadata literal not found")
     mk = {k.value: v for k, v in zip(md[0].keys, md[0].values) if isinstance(k, ast.Constant)}
-    R.check(dotted_name(mk.get("run_space_index")) == idx and idx is not None, r_fr, CLI, "_run", "metadata.run_space_index = loop index", "run_space_index is not the 0-based loop index", md[0].lineno)
+    ix = _origins(run_nf, mk.get("run_space_index"), keep_none=True)
+    R.check(bool(ix) and all(isinstance(o, ast.Name) and o.id == idx for o in ix) and idx is not None, r_fr, CLI, "_run", "metadata.run_space_index = loop index", "run_space_index is not the 0-based loop index", md[0].lineno)
     # the recorded context is a copy of the mapping the run starts from, taken when that mapping is complete
     rc = mk.get("run_space_context")
-    op = _copied_operand(rc) if rc is not None else None
-    is_copy = op is not None
-    of_ctx = is_copy and dotted_name(op) == ctx_name
+    # the copy may be named before the literal; the run context itself is a terminal (recorded by reference)
+    copies = ([rc] if dotted_name(rc) == ctx_name else _origins(run_nf, rc, keep_none=True)) if rc is not None else []
+    ops = [_copied_operand(o) for o in copies]
+    is_copy = bool(ops) and all(o is not None for o in ops)
+    of_ctx = is_copy and all(dotted_name(o) == ctx_name for o in ops)
+    op = next((o for o in ops if o is not None and dotted_name(o) != ctx_name), ops[0] if ops else None)
     what = ("the context recorded for the run is not a copy of this run's context (later mutation by the pipeline shows up in pipeline_start)" if not is_copy else
             f"pipeline_start records `{norm(op)}` instead of the mapping the run starts from (`{ctx_name}`, shared --context values plus the run's values): the recorded context does not reproduce the run")
     R.check(bool(of_ctx), r_fr, CLI, "_run", "metadata.run_space_context = copy of the run context", what, md[0].lineno)
-    md_nodes = [n for n in g.nodes if n.kind == "stmt" and n.ast is not None and any(d is x for d in md for x in ast.walk(n.ast))]
+    # the statement(s) where the copy is taken (the literal itself, or the local the copy was named in)
+    taken = copies if is_copy else md
+    md_nodes = [n for n in g.nodes if n.kind == "stmt" and n.ast is not None and any(d is x for d in taken for x in ast.walk(n.ast))]
     heads = set(g.nodes_for(loop))
     later = g.reach([m.id for m in md_nodes], blocked=heads) if md_nodes else {}
     late_muts = [m for m, _r in mutation_sites(loop, {ctx_name}) if any(g.nodes[i].ast is not None and any(x is m for x in ast.walk(g.nodes[i].ast)) for i in later if i not in {n.id for n in md_nodes})]
@@ -579,26 +760,44 @@ def freshness_rules(repo: Repo, R: Report, run_nf: ast.AST, g: CFG, loop: ast.Fo
     bad = g.must_pass([s for s in body_starts if not stages(g.nodes[s])], [proc.id], stages) if body_starts else [(0, [])]
     R.check(not bad, r_fr, CLI, "_run", "pipeline.set_run_metadata(...) every iteration before process", "run metadata is not staged for every run", loop.lineno, bad[0][1] if bad else None)
     # Pipeline: metadata consumed once per run
+    SLOT = "self._run_metadata"
     pp = nfunc(repo, PIPE, "Pipeline._process")
     ex_calls = [c for c in calls_in(pp) if call_attr(c) == "execute" and kwarg(c, "run_metadata") is not None]
-    ok = bool(ex_calls) and all(any(dotted_name(o) == "self._run_metadata" for o in _origins_attr_terminal(pp, kwarg(c, "run_metadata"))) for c in ex_calls) and any(
-        isinstance(n, ast.Assign) and any(dotted_name(t) == "self._run_metadata" for t in n.targets) and _is_none(n.value) for n in ast.walk(pp))
+
+    def _clears(n) -> bool:  # every value the statement stores into the slot is None (also `x, self._run_metadata = ..., None`)
+        vals = _value_for(n.ast, SLOT) if n.ast is not None and n.kind == "stmt" else []
+        return bool(vals) and all(_is_none(v) for v in vals)
+
+    def _reads(n) -> bool:
+        return n.ast is not None and n.kind == "stmt" and any(isinstance(x, ast.Attribute) and isinstance(x.ctx, ast.Load) and dotted_name(x) == SLOT for x in ast.walk(n.ast))
+    gp = CFG(pp)
+    ok = bool(ex_calls) and all(any(dotted_name(o) == SLOT for o in _origins_attr_terminal(pp, kwarg(c, "run_metadata"))) for c in ex_calls) and any(_clears(n) for n in gp.nodes)
     R.check(ok, r_fr, PIPE, "Pipeline._process", "run_metadata passed to execute and cleared afterwards", "staged run metadata survives into the next run of the same Pipeline", pp.lineno)
     # ... on every exit, also when the run raises: otherwise the next process() of the same Pipeline without staged
-    # metadata emits a pipeline_start carrying the failed run's index / context / launch FK
-    gp = CFG(pp)
+    # metadata emits a pipeline_start carrying the failed run's index / context / launch FK.  The slot may be cleared
+    # after execute (try/finally) or taken-and-cleared before it (the clear is, or comes after, the read of the slot).
     ex_nodes = [n for n in gp.nodes if n.ast is not None and n.kind == "stmt" and any(call_attr(c) == "execute" and kwarg(c, "run_metadata") is not None for c in calls_in(n.ast))]
-    def _clears(n) -> bool:
-        return n.ast is not None and isinstance(n.ast, ast.Assign) and any(dotted_name(t) == "self._run_metadata" for t in n.ast.targets) and _is_none(n.ast.value)
+    read_ids = [n.id for n in gp.nodes if _reads(n)]
+    clear_ids = {n.id for n in gp.nodes if _clears(n)}
+    dirty_ids = {n.id for n in gp.nodes if n.ast is not None and n.kind == "stmt" and _value_for(n.ast, SLOT) and n.id not in clear_ids}
     for exn in ex_nodes:
+        after_ex = gp.reach([exn.id])
+        # clears that count: any clear after execute; before it only one that does not lose the staged value (the read
+        # happens in the same statement or on every path to it)
+        valid = {c for c in clear_ids if (c in after_ex and c != exn.id) or c in read_ids or any(gp.dominated_by_node(c, r) for r in read_ids)}
+        staged_at_ex = exn.id in gp.reach([gp.entry], blocked=valid) or any(exn.id in gp.reach([d], blocked=valid) for d in dirty_ids)
         starts = [t for t, _lab in gp.succ[exn.id]]
         for label, exit_id in (("return", gp.ret_exit), ("raise(Exception)", gp.exc_exit), ("raise(BaseException)", gp.base_exit)):
-            miss = gp.must_pass([t for t in starts if not _clears(gp.nodes[t])], [exit_id], _clears)
+            miss = gp.must_pass([t for t in starts if t not in valid], [exit_id], lambda n: n.id in valid) if staged_at_ex else []
+            # a non-None store after execute that reaches the exit
+            restaged = [d for d in dirty_ids if d in after_ex and d != exn.id and gp.must_pass([d], [exit_id], lambda n: n.id in valid)]
             # a start that is itself the exit (execute raises straight out of the function) never clears
-            direct = exit_id in starts
-            R.check(not miss and not direct, r_fr, PIPE, "Pipeline._process", f"self._run_metadata = None on exit {label} after execute", "staged run metadata survives a run that ends this way: a later run of the same Pipeline reports the previous run's index, context and launch", exn.line, miss[0][1] if miss else None)
-    sm = repo.func(PIPE, "Pipeline.set_run_metadata")
-    ok = any(isinstance(n, (ast.Assign, ast.AnnAssign)) and n.value is not None and (_copied_operand(n.value) is not None or (isinstance(n.value, ast.Call) and call_attr(n.value) == "dict")) for n in ast.walk(sm))
+            direct = staged_at_ex and exit_id in starts
+            R.check(not miss and not direct and not restaged, r_fr, PIPE, "Pipeline._process", f"self._run_metadata = None on exit {label} after execute", "staged run metadata survives a run that ends this way: a later run of the same Pipeline reports the previous run's index, context and launch", exn.line, miss[0][1] if miss else None)
+    # set_run_metadata keeps its own copy: whatever it stores into the slot is a copy of the argument / a fresh literal
+    sm = nfunc(repo, PIPE, "Pipeline.set_run_metadata", copyprop="all")
+    stored = [o for v in _assigned(sm, SLOT) for o in _origins_attr_terminal(sm, v)]
+    ok = bool(stored) and all(_copied_operand(o) is not None or (isinstance(o, ast.Call) and call_attr(o) == "dict") or isinstance(o, (ast.Dict, ast.DictComp)) or _is_none(o) for o in stored)
     R.check(ok, r_fr, PIPE, "Pipeline.set_run_metadata", "self._run_metadata = dict(metadata or {})", "run metadata stored by reference", sm.lineno)
 
     # execute forwards the four kwargs: each value originates from the run metadata / the launch FK under its own key
@@ -727,11 +926,13 @@ def launch_id_rules(repo: Repo, R: Report) -> None:
             v = c.args[fields.index(name)]
         return v
 
-    def atom(param: str, truthy: bool) -> Callable[[ast.AST], Optional[bool]]:
+    def atom(names: Set[str], truthy: bool) -> Callable[[ast.AST], Optional[bool]]:
         def a(e: ast.AST) -> Optional[bool]:
-            if isinstance(e, ast.Name) and e.id == param:
+            if isinstance(e, ast.Name) and e.id in names:
                 return truthy
-            if isinstance(e, ast.Compare) and len(e.ops) == 1 and isinstance(e.left, ast.Name) and e.left.id == param and _is_none(e.comparators[0]):
+            if isinstance(e, ast.Call) and isinstance(e.func, ast.Name) and e.func.id == "bool" and len(e.args) == 1 and not e.keywords:
+                return a(e.args[0])
+            if isinstance(e, ast.Compare) and len(e.ops) == 1 and isinstance(e.left, ast.Name) and e.left.id in names and _is_none(e.comparators[0]):
                 if isinstance(e.ops[0], ast.IsNot):
                     return truthy
                 if isinstance(e.ops[0], ast.Is):
@@ -739,13 +940,68 @@ def launch_id_rules(repo: Repo, R: Report) -> None:
             return None
         return a
 
+    tests = [n for n in gl.nodes if n.kind in ("if", "while") and n.part is not None]
+
+    def holds_param(name: str, at: int, param: str) -> bool:
+        """Local *name*, read at node *at*, certainly holds the value of parameter *param* (an alias)."""
+        cs = _value_cases(gl, cl, ast.Name(id=name, ctx=ast.Load()), at, params)
+        return bool(cs) and all(isinstance(c.value, ast.Name) and c.value.id == param for c in cs)
+
+    guard_cache: Dict[Tuple[str, bool], Set[Tuple[int, str]]] = {}
+
+    def guard_edges(param: str, truthy: bool) -> Set[Tuple[int, str]]:
+        """Branch edges on which *param* is known to be truthy / falsy; a test on a local that holds the
+        parameter's value at that point counts as a test on the parameter."""
+        key = (param, truthy)
+        if key not in guard_cache:
+            out: Set[Tuple[int, str]] = set()
+            for n in tests:
+                locs = {x.id for x in ast.walk(n.part) if isinstance(x, ast.Name) and x.id not in params}
+                names = {param} | {x for x in locs if holds_param(x, n.id, param)}
+                out |= {(n.id, e) for e in edges_guaranteeing(n.part, atom(names, truthy))}
+            guard_cache[key] = out
+        return guard_cache[key]
+
     def only_when(node_id: int, param: str, truthy: bool) -> bool:
-        blocked = set()
-        for n in gl.nodes:
-            if n.kind in ("if", "while") and n.part is not None:
-                for e in edges_guaranteeing(n.part, atom(param, truthy)):
-                    blocked.add((n.id, e))
+        blocked = guard_edges(param, truthy)
         return bool(blocked) and node_id not in gl.reach([gl.entry], blocked_edges=blocked)
+
+    def def_nodes(name: str) -> List[int]:
+        out: List[int] = []
+        for n in gl.nodes:
+            a = n.ast
+            if a is None or n.kind not in ("stmt", "for", "with", "except"):
+                continue
+            if n.kind == "except":
+                tg: List[ast.AST] = [ast.Name(id=a.name, ctx=ast.Store())] if getattr(a, "name", None) else []
+            elif n.kind == "with":
+                tg = [it.optional_vars for it in a.items if it.optional_vars is not None]
+            else:
+                tg = list(a.targets) if isinstance(a, ast.Assign) else [a.target] if isinstance(a, (ast.AnnAssign, ast.AugAssign, ast.For)) else []
+            if any(isinstance(x, ast.Name) and x.id == name for t in tg for x in ast.walk(t)):
+                out.append(n.id)
+        return out
+
+    def case_only_when(case: _Case, param: str, truthy: bool, carried_from: int = 0) -> bool:
+        """The value of *case* is produced only when *param* is truthy / falsy (parameters are not rebound -
+        checked by the callers).  Any of: a statement executed to produce it (its definition in a branch, the
+        return) is confined to such paths; a conditional expression / ``or`` on the way selected it under such a
+        test; a local it travelled in gets from its definition to its use only over such a branch edge (while the
+        local carries the parameter's own value, a test on the local is a test on the parameter)."""
+        if any(only_when(s_, param, truthy) for s_ in case.sites):
+            return True
+        if any(("T" if truth else "F") in edges_guaranteeing(test, atom({param}, truthy)) for test, truth in case.conds):
+            return True
+        is_param = isinstance(case.value, ast.Name) and case.value.id == param
+        for k, (d, use, local) in enumerate(case.hops):
+            blocked = set(guard_edges(param, truthy))
+            if is_param and k >= carried_from:  # hops[carried_from:] are the locals the value itself travelled in
+                for n in tests:
+                    blocked |= {(n.id, e) for e in edges_guaranteeing(n.part, atom({local}, truthy))}
+            others = {o for o in def_nodes(local) if o != d and o != use}
+            if blocked and use not in gl.reach([t for t, _l in gl.succ[d]], blocked=others, blocked_edges=blocked):
+                return True
+        return False
 
     def uuid_based(e: ast.AST, depth: int = 3) -> bool:
         mod = repo.module(LAUNCH)
@@ -767,24 +1023,29 @@ def launch_id_rules(repo: Repo, R: Report) -> None:
     rets = [n for n in gl.nodes if n.kind == "stmt" and isinstance(n.ast, ast.Return)]
     if not rets:
         raise AnalysisError("create_launch: no return found")
-    explicit, idem, generated, unknown = [], [], [], []
+    # every (return, RunSpaceLaunch(...) it may return, value its id may have) with the path facts that select it
+    explicit: List[Tuple] = []
+    idem: List[Tuple] = []
+    generated: List[Tuple] = []
+    unknown: List[Tuple] = []
     for n in rets:
-        made = [o for o in _origins(cl, n.ast.value)]
-        for c in made:
+        for cc in _value_cases(gl, cl, n.ast.value, n.id, params):
+            c = cc.value
             if not (isinstance(c, ast.Call) and (call_name(c) or "").split(".")[-1] == "RunSpaceLaunch"):
                 unknown.append((n, c))
                 continue
-            for idv in _origins(cl, field(c, "id")) or [None]:
-                if idv is None:
+            for case in _value_cases(gl, cl, field(c, "id"), cc.sites[-1], params, cc):
+                idv = case.value
+                if idv is None or _is_none(idv):
                     unknown.append((n, c))
                 elif isinstance(idv, ast.Name) and idv.id == "provided_launch_id":
-                    explicit.append((n, c, idv))
+                    explicit.append((n, cc, case))
                 elif any(isinstance(x, ast.Call) and (call_name(x) or "").startswith("hashlib.") for s_ in _slice_exprs(cl, idv) for x in ast.walk(s_)):
-                    idem.append((n, c, idv))
+                    idem.append((n, cc, case))
                 else:
-                    generated.append((n, c, idv))
+                    generated.append((n, cc, case))
     # (1) explicit id unchanged, only when one was given
-    ok = len(explicit) >= 1 and not unknown and "provided_launch_id" not in rebound and all(only_when(n.id, "provided_launch_id", True) for n, _c, _v in explicit)
+    ok = len(explicit) >= 1 and not unknown and "provided_launch_id" not in rebound and all(case_only_when(case, "provided_launch_id", True, len(cc.hops)) for _n, cc, case in explicit)
     R.check(ok, r_l, LAUNCH, QUAL, "return RunSpaceLaunch(id=provided_launch_id)", "an explicit launch id is not returned unchanged", cl.lineno)
     # (2) idempotent id: sha256 over prefix + (inputs_id or spec_id) + key and nothing else
     ALLOWED = {"idempotency_key", "run_space_inputs_id", "run_space_spec_id"}
@@ -832,10 +1093,15 @@ def launch_id_rules(repo: Repo, R: Report) -> None:
         else:
             foreign.append(e)
 
-    ok = len(idem) == 1
+    def when(entry: Tuple, param: str, truthy: bool) -> bool:
+        _n, cc, case = entry
+        return case_only_when(case, param, truthy, len(cc.hops))
+
+    ok = len(idem) >= 1
     why = "idempotent launch id depends on something other than (inputs/spec id, key) - e.g. time, attempt or a random value"
-    if ok:
-        n, _c, idv = idem[0]
+    bases: Set[str] = set()
+    for entry in idem:  # one per way the digest is built (one in the usual spelling; `basis` chosen by if/else gives two)
+        idv = entry[2].value
         hs = [x for s_ in _slice_exprs(cl, idv) for x in ast.walk(s_) if isinstance(x, ast.Call) and (call_name(x) or "").startswith("hashlib.")]
         parts: List[ast.AST] = []
         for h in hs:
@@ -850,23 +1116,27 @@ def launch_id_rules(repo: Repo, R: Report) -> None:
         for p in parts:
             leaves(p, names, consts, foreign)
         prefix_ok = bool(consts) and isinstance(consts[0], (bytes, str)) and (consts[0] if isinstance(consts[0], bytes) else consts[0].encode()).startswith(b"semantiva:rsl")
-        ok = len(hs) == 1 and (call_name(hs[0]) == "hashlib.sha256") and bool(parts) and not foreign and names <= ALLOWED and {"idempotency_key", "run_space_spec_id"} <= names and prefix_ok and not (rebound & ALLOWED)
+        bases |= names & {"run_space_inputs_id", "run_space_spec_id"}
+        ok = ok and len(hs) == 1 and (call_name(hs[0]) == "hashlib.sha256") and bool(parts) and not foreign and names <= ALLOWED and "idempotency_key" in names and bool(names & {"run_space_inputs_id", "run_space_spec_id"}) and prefix_ok and not (rebound & ALLOWED)
         if foreign:
             why = f"idempotent launch id depends on `{norm(foreign[0])[:60]}`, not only on (inputs/spec id, key): the same key does not reproduce the id"
         elif names - ALLOWED:
             why = f"idempotent launch id depends on {sorted(names - ALLOWED)}, not only on (inputs/spec id, key): the same key does not reproduce the id"
-        ok = ok and only_when(n.id, "idempotency_key", True) and only_when(n.id, "provided_launch_id", False)
+        ok = ok and when(entry, "idempotency_key", True) and when(entry, "provided_launch_id", False)
+    ok = ok and "run_space_spec_id" in bases  # the inputs id may be absent: the spec id is the basis then
     R.check(ok, r_l, LAUNCH, QUAL, "sha256(prefix + (inputs_id or spec_id) + key)", why, idem[0][0].line if idem else cl.lineno)
     # (3) generated ids only when neither an id nor a key was given, and they are uuid based
-    ok = len(generated) >= 1 and all(uuid_based(v) and only_when(n.id, "provided_launch_id", False) and only_when(n.id, "idempotency_key", False) for n, _c, v in generated)
+    ok = len(generated) >= 1 and all(uuid_based(entry[2].value) and when(entry, "provided_launch_id", False) and when(entry, "idempotency_key", False) for entry in generated)
     R.check(ok, r_l, LAUNCH, QUAL, "generated id only on the fall-through path", "uuid-based id is not confined to the path without explicit id / idempotency key", generated[0][0].line if generated else cl.lineno)
     # (4) every launch carries the attempt that was asked for
-    for n, c, _v in explicit + idem + generated:
-        av = field(c, "attempt")
-        outs = _origins(cl, av) if av is not None else []
-        ok = bool(outs) and all(isinstance(o, ast.Name) and o.id == "attempt" for o in outs) and "attempt" not in rebound
-        R.check(ok, r_l, LAUNCH, QUAL, f"return RunSpaceLaunch(..., attempt=attempt) [{'explicit' if (n, c, _v) in explicit else 'idempotent' if (n, c, _v) in idem else 'generated'} id]",
-                f"`{norm(c)[:70]}` does not carry the requested attempt ({'default of the dataclass is used' if av is None else 'attempt=' + norm(av)[:30]}): run_space_start, every pipeline_start and run_space_end of that launch report another attempt than the one asked for", n.line)
+    for kind, entries in (("explicit", explicit), ("idempotent", idem), ("generated", generated)):
+        for n, cc, _case in entries:
+            c = cc.value
+            av = field(c, "attempt")
+            outs = _value_cases(gl, cl, av, cc.sites[-1], params) if av is not None else []
+            ok = bool(outs) and all(isinstance(o.value, ast.Name) and o.value.id == "attempt" for o in outs) and "attempt" not in rebound
+            R.check(ok, r_l, LAUNCH, QUAL, f"return RunSpaceLaunch(..., attempt=attempt) [{kind} id]",
+                    f"`{norm(c)[:70]}` does not carry the requested attempt ({'default of the dataclass is used' if av is None else 'attempt=' + norm(av)[:30]}): run_space_start, every pipeline_start and run_space_end of that launch report another attempt than the one asked for", n.line)
     # the CLI asks for the attempt given on the command line
     run_nf = nfunc(repo, CLI, "_run")
     crt = [c for c in calls_in(run_nf) if call_attr(c) == "create_launch"]
